@@ -1,8 +1,8 @@
 //! C01: edit histories through the real AnalyzedSource::update.
 //! Command line: `17 n old[n] q ( k ( cs ce m ins[m] ){k} ){q}` - q notifications of k changes each.
 //! Output: `0` then per notification  `r f_text f_tokens f_ast f_table f_errors len enc..` where r = 0 (done; the
-//! flags compare the updated document with AnalyzedSource::new of its text, 1 = equal; enc = the updated tree with
-//! only its syntax errors, `len` numbers) or `1` (update panicked; the history ends) ; `3` = a change does not
+//! flags compare the updated document with AnalyzedSource::new of its text, 1 = equal; enc = the whole updated
+//! document: tree with all attached diagnostics, errors(), table; `len` numbers) or `1` (update panicked; the history ends) ; `3` = a change does not
 //! address the current text.
 use spl_frontend::{AnalyzedSource, ErrorContainer, TextChange};
 use std::io::{BufRead, Write};
@@ -66,9 +66,20 @@ fn run_hist(args: &[u64]) -> Vec<u64> {
                     _ => 0,
                 });
                 let mut enc = Vec::new();
-                PARSE_ERRORS_ONLY.with(|c| c.set(true));
                 enc_program(&updated.ast, &mut enc);
-                PARSE_ERRORS_ONLY.with(|c| c.set(false));
+                match catch_unwind(AssertUnwindSafe(|| updated.errors())) {
+                    Ok(errs) => {
+                        enc.push(1);
+                        enc.push(errs.len() as u64);
+                        for e in &errs {
+                            enc.push(e.0.start as u64);
+                            enc.push(e.0.end as u64);
+                            enc_emsg(&e.1, &mut enc);
+                        }
+                    }
+                    Err(_) => enc.push(0),
+                }
+                verif_harness::encode_table::enc_global_table(&updated.table, &mut enc);
                 out.push(enc.len() as u64);
                 out.extend(enc);
                 doc = updated;
